@@ -163,10 +163,47 @@ def gen_case(rng, force_dir=None):
             supplied.append({'name': nm, 'cal': gen_calendar(rng)})
     if rng.random() < 0.1:
         supplied.append({'name': 'unused', 'cal': wk([0, 1, 2, 3, 4], ['i', 8])})
+    edits = []
+    if supplied and rng.random() < 0.15:
+        for r in rng.sample(supplied, rng.randint(1, len(supplied))):
+            edits.append([r['name'], gen_calendar(rng)])
     return {'dir': 'fwd' if fwd else 'bwd', 'tasks': tasks, 'ext': ext, 'links': links, 'link_via_succ': rng.random() < 0.4,
+            'edit_calendars': edits,
             'resources': supplied, 'balance': rng.random() < 0.7,
             'default_estimate': rng.choice([None, None, 0, 8, 64, 128]), 'pbound': pbound, 'now': now, 'now2': now2,
             'window_lo': WINDOW_LO, 'window_days': WINDOW_DAYS}
+
+
+OFF_UNITS = [7, 5.6, 11, 13, 3, 7.5, 6, 0.7, 8, 9.1]
+OFF_AMOUNTS = [0.1, 0.2, 0.3, 0.7, 1.1, 2.5, 3.3, 5.6, 7, 10.4, 13, 21.7, 40, 0.05, 33.3]
+
+
+def gen_offgrid_case(rng):
+    """capacities and amounts off the dyadic grid: only the oracles are evaluated (with a tolerance), no model run"""
+    c = gen_case(rng)
+    c['offgrid'] = True
+    c.pop('edit_calendars', None)
+    for t in c['tasks']:
+        if t['est'] is not None and rng.random() < 0.8:
+            t['est_raw'] = float(rng.choice(OFF_AMOUNTS) * rng.choice([1, 1, 2, 3])).hex()
+            if t['spent'] is not None:
+                t['spent_raw'] = float(rng.choice([0.0, 0.1, 0.3, 1.1, float.fromhex(t['est_raw']) / 3])).hex()
+    res = []
+    for nm in ['a', 'b', None, 'c']:
+        if rng.random() < 0.8:
+            u = rng.choice(OFF_UNITS)
+            unit = ['i', u] if isinstance(u, int) else ['f', float(u).hex()]
+            q = rng.random()
+            if q < 0.6:
+                cal = wk(sorted(rng.sample(range(7), rng.randint(3, 7))), unit)
+            elif q < 0.8:
+                cal = ['binc', 'or', ['dated', [[day_us(rng.randint(0, 20)), ['f', float(rng.choice(OFF_UNITS)).hex()]] for _ in range(3)]],
+                       wk([0, 1, 2, 3, 4], unit)]
+            else:
+                cal = ['binn', 'mul', wk([0, 1, 2, 3, 4], ['i', 8]), ['f', float(rng.choice([0.7, 0.9, 0.35])).hex()]]
+            res.append({'name': nm, 'cal': cal})
+    c['resources'] = res
+    return c
 
 
 def T(id, parent=None, **kw):
@@ -265,10 +302,11 @@ EMPTY_OSCH = '(Build_osch [] [])'
 def emit_case(case, out):
     fwd = case['dir'] == 'fwd'
     obs = out.get('obs')
-    return '(Build_scase %s %s %s %s 64 %s %s %s %s %s %s %s %s %s %s %s)' % (
+    K = out.get('K', 8)
+    return '(Build_scase %s %s %s %s %s %s %s %s %s %s %s %s %s %s %s %s)' % (
         coq_bool(fwd), coq_list([emit_itask(k) for k in out['w']]), coq_list([emit_rescal(r) for r in out['rs']]),
-        coq_list([coq_bool(b) for b in out['supplied']]),
-        coq_bool(case['balance']), z(case['default_estimate'] or 0), z(case['pbound']), z(case['now']),
+        coq_list([coq_bool(b) for b in out['supplied']]), z(8 * K),
+        coq_bool(case['balance']), z((case['default_estimate'] or 0) * (K // 8)), z(case['pbound']), z(case['now']),
         nat(out['outcome']),
         emit_osch(obs) if obs else EMPTY_OSCH,
         coq_list(['(%s, %s, %s)' % (nat(a), z(b), z(c)) for a, b, c in obs['reserved']]) if obs else '[]',
@@ -278,12 +316,29 @@ def emit_case(case, out):
 
 
 # ---------- evaluation ------------------------------------------------------------------------------
+OFF_HEADER = HEADER.replace('Sched.Case.', 'Sched.Case Sched.CaseOff.')
+
+
 def evaluate(ctx, cases, jobs=12):
     chunks = [cases[i:i + 25] for i in range(0, len(cases), 25)]
     outs = [o for part in ctx.impl_run_many('sched_impl', chunks, jobs=jobs) for o in part]
     kept = [(c, o) for c, o in zip(cases, outs) if 'offgrid' not in o]
-    terms = [emit_case(c, o) for c, o in kept]
-    codes = ctx.coq_codes('sched', HEADER, 'scase', terms, 'check_case', shard=40, jobs=jobs)
+    grid = [i for i, (c, o) in enumerate(kept) if not c.get('offgrid')]
+    off = [i for i, (c, o) in enumerate(kept) if c.get('offgrid')]
+    codes = [0] * len(kept)
+    gcodes = ctx.coq_codes('sched', HEADER, 'scase', [emit_case(*kept[i]) for i in grid], 'check_case', shard=40, jobs=jobs)
+    for i, c in zip(grid, gcodes):
+        codes[i] = c
+    # off the dyadic grid: oracles only, exact rationals scaled by K, tolerance 2e-9 of a 16-unit day on the capacity bound
+    byk = {}
+    for i in off:
+        byk.setdefault(kept[i][1]['K'], []).append(i)
+    for K, ixs in byk.items():
+        eps = K * 32 // 10 ** 9 + 1
+        ocodes = ctx.coq_codes('schedoff%d' % (K.bit_length()), OFF_HEADER, 'scase', [emit_case(*kept[i]) for i in ixs],
+                               '(check_offgrid %d)' % eps, shard=40, jobs=jobs)
+        for i, c in zip(ixs, ocodes):
+            codes[i] = c
     return outs, kept, codes
 
 
@@ -317,7 +372,7 @@ def classify(case, out):
 
 
 def run_property(ctx, pid, fail_bits, mismatch_bits, dirs=('fwd', 'bwd'), extra=None, n_quick=260, n_thorough=4000,
-                 extra_cases=None):
+                 extra_cases=None, offgrid_fail=0, n_off_quick=70, n_off_thorough=1500):
     """Generic body of a scheduler property check.
     fail_bits: oracle bits whose being set means the property fails on the implementation's output;
     mismatch_bits: correspondence bits that this property ties to the model."""
@@ -328,8 +383,17 @@ def run_property(ctx, pid, fail_bits, mismatch_bits, dirs=('fwd', 'bwd'), extra=
         cases.append(gen_case(ctx.rng, None if len(dirs) == 2 else dirs[0]))
     if extra_cases:      # a property's own additional stream (callable: drawn after the common stream)
         cases += list(extra_cases(ctx) if callable(extra_cases) else extra_cases)
+    n_off = 0
+    if offgrid_fail:
+        n_off = n_off_quick if ctx.tier == 'quick' else n_off_thorough
+        while n_off > 0:
+            c = gen_offgrid_case(ctx.rng)
+            if c['dir'] in dirs:
+                cases.append(c)
+                n_off -= 1
     outs, kept, codes = evaluate(ctx, cases)
-    dist = {'offgrid_discarded': len(cases) - len(kept), 'illformed_discarded': 0, 'returned': 0, 'runtime_error': 0, 'crash': 0}
+    dist = {'offgrid_stream': sum(1 for c, _ in kept if c.get('offgrid')), 'calendar_edited_between_calcs': sum(1 for c, _ in kept if c.get('edit_calendars')),
+            'offgrid_discarded': len(cases) - len(kept), 'illformed_discarded': 0, 'returned': 0, 'runtime_error': 0, 'crash': 0}
     feats = {}
     distinct = set()
     exact_disagree = 0
@@ -351,6 +415,14 @@ def run_property(ctx, pid, fail_bits, mismatch_bits, dirs=('fwd', 'bwd'), extra=
             exact_disagree += 1
         desc = {'case': case, 'abstract_input': out['w'], 'outcome': out['outcome'], 'exc': out.get('exc'),
                 'observed': out.get('obs'), 'code': code}
+        if case.get('offgrid'):
+            if code & offgrid_fail:
+                names = [k for k, v in BITS.items() if code & offgrid_fail & v]
+                ctx.failure('%s/%s/offgrid/%s' % (pid, case['dir'], '+'.join(names)),
+                            'oracle %s false (beyond the float tolerance) on the schedule returned for an off-grid case (%s)' % ('+'.join(names), case['dir']), desc)
+            if extra:
+                extra(ctx, case, out, code, desc)
+            continue
         if code & fail_bits:
             names = [k for k, v in BITS.items() if code & fail_bits & v]
             ctx.failure('%s/%s/%s' % (pid, case['dir'], '+'.join(names)),
